@@ -762,7 +762,7 @@ fn main() {
     let rt = tokio::runtime::Builder::new_current_thread().enable_all().build().unwrap();
 
     // a directory for the mrt queue endpoint: files inside, a file outside, a symlink leading out
-    let root = std::env::temp_dir().join(format!("verif-c12-{}", std::process::id()));
+    let root = std::env::temp_dir().join(format!("verif-c12-{:010}", std::process::id()));
     let mrt_dir = root.join("updates");
     std::fs::create_dir_all(mrt_dir.join("sub")).unwrap();
     std::fs::write(mrt_dir.join("a.mrt"), b"x").unwrap();
